@@ -475,3 +475,29 @@ _add("C14", "Added: for the recycled flate window (Reset keeps the history buffe
      "(reset_equals_fresh, recycled_irrelevant; outside that protocol stale bytes do leak - stale_leak - so the Reader's "
      "distance check is what separates streams). The check now also runs Writers created between Close and Reset of "
      "another Writer, first destinations that fail having accepted nothing, and Reader reuse over multi-index streams.")
+
+_add("C15", "Added (third session): THE PART THAT HOLDS IS PROVED FOR EVERY BYTE STRING - "
+     "xflate_accept_implies_deflate_unless_final_bit_in_chunk (XFlate/AcceptDeflate.v + Meta/Accept.v, 2500 lines by a proof "
+     "sub-agent): if the Reader model accepts a stream and no data chunk delimited by the accepted index contains a block "
+     "with the final bit (c15_class = 1, the very classification this check applies), the RFC 1951 model reads the same "
+     "content and consumes the stream to its last byte (streams below 2^63 bytes). Hence the known finding D7 is the only way "
+     "the property fails. Uses the converse for meta blocks (everything the meta decoder accepts is an empty DEFLATE block).")
+_add("C16", "Added: the CONVERSE is proved too - whatever the meta decoder accepts is, for the RFC 1951 model, an empty block "
+     "ending at the same bit, final iff FinalStream (Meta/Accept.v) - so all clauses of the property now have theorems.")
+_add("C12", "Added: THE PROPERTY FOR EVERY HISTORY under contract K1 (XFlate/FlushPoints.v): every proper cut of a closed "
+     "Writer's output makes the DEFLATE model end in UnexpectedEOF with a prefix of the data (xflate_cut_never_misread); "
+     "right after any successful Flush the p bytes handed out decode to EXACTLY the data written before it, any "
+     "continuation keeps them, later calls never change them (xflate_flushed_data_survives_truncation).")
+_add("C05", "K1 is satisfiable (XFlate/K1Witness.v: a stored-block compressor satisfies it and the whole Writer -> Reader "
+     "pipeline runs inside Coq), so the theorems are not vacuous.")
+_add("C20", "(6) the two-level DECODER TABLE and the encoder table at implementation level (Prefix/DecTable.v mirrors "
+     "Decoder.Init over recycled arrays with arbitrary stale contents, the ReadSymbol loop over the bit-reader model, "
+     "Encoder.Init's grow-and-retry; WDECTAB correspondence): for every valid code the lookup returns the code's symbol and "
+     "length, tables do not depend on stale contents, ReadSymbol on a ReadByte source pulls exactly the bytes holding the "
+     "code word (zero-minimal codes: all canonical ones), encoder-then-decoder returns the symbol (Prefix/Dec*Thms.v, "
+     "Enc*Thms.v). Findings outside what the library's own callers do: for valid NON-canonical codes ReadSymbol can request "
+     "more bits than the next code word (witness_over_request); symbols >= 2^27 are truncated; Encoder.Init loops for ever "
+     "on duplicate symbols.")
+_add("C01", "The decoder tables built by prefix.Decoder.Init from the canonical code of any complete length assignment decode "
+     "every canonical code word (canon_table_decodes) - the link between the table walk of the Go code and the trie of "
+     "the RFC model. A model of flate.Reader itself composing bit reader, tables and window is in progress.")
